@@ -48,7 +48,7 @@ func init() {
 	Props["C02"] = &PropDef{
 		ID: "C02",
 		Profile: &Profile{Name: "pool", W: map[string]int{"new": 20, "newBatch": 10, "copy": 6, "removeEntity": 22, "removeEntities": 8, "filterNew": 3,
-			"add": 4, "remove": 2, "reset": 1, "dumpLoad": 2, "dump": 3, "loadSaved": 3, "query": 1, "stats": 1, "shrink": 1}, MaxEnts: 30, MinOps: 10, MaxOps: 150, Caps: []int{1, 1, 2, 3, 4, 8}},
+			"add": 6, "remove": 2, "setRel": 6, "reset": 1, "dumpLoad": 2, "dump": 3, "loadSaved": 3, "query": 1, "stats": 1, "shrink": 1}, MaxEnts: 30, MinOps: 10, MaxOps: 150, Caps: []int{1, 1, 2, 3, 4, 8}, RelBias: 40},
 		Policies: []Policy{{}},
 		Opt:      Options{DeepEvery: 1},
 		Rule: genNote + "creation/removal-heavy histories incl. dump/reset/load; after every op Alive(h) is compared with the model for every handle issued since the last reset, " +
